@@ -480,6 +480,25 @@ func c13Burst(db *badger.DB, emit func(prop, desc string)) string {
 	return strings.Join(got, ",")
 }
 
+func init() {
+	seqChecks["burst"] = &seqCheck{rule: "one execution: 258 index updates queued while the index worker is held in a callback (queue-full environment answer); run in the -race build for C16",
+		run: func(c *seqCtx) {
+			db := openDB()
+			defer db.Close()
+			sig := c13Burst(db, func(prop, desc string) { c.Fail(prop, desc+" [burst]", "burst") })
+			c.Eval("burst=>" + sig)
+			c.Eval("burst-done")
+			c.Sample("burst: 258 queued index updates with the worker held in a callback")
+		},
+		replay: func(string) []string {
+			db := openDB()
+			defer db.Close()
+			var out []string
+			c13Burst(db, func(prop, desc string) { out = append(out, prop+": "+desc) })
+			return out
+		}}
+}
+
 func usedID(ops []c13Op, id string) bool {
 	for _, o := range ops {
 		if o.ID == id {
